@@ -4,7 +4,7 @@
      kt_obs_member / kt_obs_variant / kt_obs / kt_file_decls             the language-independent observation
    The Kotlin generator keeps no state while printing: the fields of `struct Kotlin` are configuration
    only, nothing is buffered and nothing is written out of order, so the monad is [outcome] itself
-   (Err = the io::Error that wraps a RustTypeFormatError, Panic = todo!()). *)
+   (Err = the io::Error that wraps a RustTypeFormatError, or the one write_const returns). *)
 From Coq Require Import String.
 From TS Require Import Model.Str Model.Outcome Model.Unicode Model.Types Model.Parse Model.Rename
                        Model.TopsortAlgo Model.Topsort Model.Lang.Common Model.Lang.Decl Model.Lang.TypeScript.
@@ -279,13 +279,15 @@ Definition kt_enum_decls (e : renum) : outcome (list kt_decl) :=
           end;
   Ok (anon ++ [d]).
 
-(* the definitions emitted for one source item, in output order. kotlin.rs:182 write_const: todo!() *)
+(* the definitions emitted for one source item, in output order. kotlin.rs:182 write_const returns
+   Err(io::Error(Unsupported, "constants are not supported for Kotlin: cannot generate `NAME`")) (the /repo fix
+   of the todo!() at kotlin.rs:183) *)
 Definition kt_decl_of (it : ritem) : outcome (list kt_decl) :=
   match it with
   | ItEnum e => kt_enum_decls e
   | ItStruct s => do d <- kt_struct_decl s; Ok [d]
   | ItAlias a => do d <- kt_alias_decl a; Ok [d]
-  | ItConst c => Panic "kotlin.rs:183"
+  | ItConst c => Err (EConstUnsupported (original (cid c)))
   end.
 
 (* ================= layout ================= *)
